@@ -67,6 +67,7 @@ struct SoloEv {
 thread_local! {
     static ROLE: RefCell<Option<Role>> = const { RefCell::new(None) };
     static SOLO_LOG: RefCell<Vec<SoloEv>> = const { RefCell::new(Vec::new()) };
+    static SOLO_MARK: RefCell<usize> = const { RefCell::new(usize::MAX) };
 }
 
 const WOULD_WAIT: &str = "WOULD-WAIT: blocking lock requested while the holder is frozen";
@@ -228,14 +229,14 @@ pub struct Fail {
 
 fn wait_until(pred: impl Fn(&Ctl) -> bool, what: &str) -> Result<(), Fail> {
     let mut g = CTL.lock().unwrap_or_else(|e| e.into_inner());
-    let deadline = std::time::Instant::now() + std::time::Duration::from_secs(20);
+    let deadline = std::time::Instant::now() + std::time::Duration::from_secs(6);
     loop {
         if pred(g.as_ref().expect("ctl")) {
             return Ok(());
         }
         let now = std::time::Instant::now();
         if now >= deadline {
-            return Err(Fail { sig: "watchdog".into(), what: format!("harness watchdog: {} did not happen within 20 s", what), inconclusive: true });
+            return Err(Fail { sig: "watchdog".into(), what: format!("harness watchdog: {} did not happen within 6 s", what), inconclusive: true });
         }
         let (ng, _) = CV.wait_timeout(g, deadline - now).unwrap_or_else(|e| e.into_inner());
         g = ng;
@@ -318,6 +319,7 @@ fn run_scenario(s: &Scenario, salt: u64) -> Result<Outcome, Fail> {
     let solo = std::thread::spawn(move || {
         ROLE.with(|r| *r.borrow_mut() = Some(Role::Solo));
         SOLO_LOG.with(|l| l.borrow_mut().clear());
+        SOLO_MARK.with(|m| *m.borrow_mut() = usize::MAX);
         let r = std::panic::catch_unwind(std::panic::AssertUnwindSafe(|| match solo_op {
             SoloOp::Snapshot => {
                 let (b, v) = abt_s.snapshot();
@@ -326,13 +328,18 @@ fn run_scenario(s: &Scenario, salt: u64) -> Result<Outcome, Fail> {
             SoloOp::TryUpdate => {
                 let b = salt + 5_000_000;
                 let ok = abt_s.try_update((b, CRATE_PARAMS.vouch(b)));
-                ROLE.with(|r| *r.borrow_mut() = None);
+                // The follow-up snapshot stays instrumented (a blocking lock
+                // against the frozen holder must still be a deterministic
+                // event, not a hang), but only the events up to this mark
+                // belong to the judged try_update call.
+                SOLO_MARK.with(|m| *m.borrow_mut() = SOLO_LOG.with(|l| l.borrow().len()));
                 let (sb, sv) = abt_s.snapshot();
                 (sb, voucher_bits(sv), ok)
             }
         }));
         ROLE.with(|r| *r.borrow_mut() = None);
-        let log = SOLO_LOG.with(|l| l.borrow().clone());
+        let mark = SOLO_MARK.with(|m| *m.borrow());
+        let log: Vec<SoloEv> = SOLO_LOG.with(|l| l.borrow().iter().take(mark).copied().collect());
         let r = r.map_err(|_| crate::ctx::take_last_panic());
         let _ = tx.send((r, log));
     });
@@ -341,7 +348,7 @@ fn run_scenario(s: &Scenario, salt: u64) -> Result<Outcome, Fail> {
     // writer so that it completes the frozen update and `c` more, then resume.
     if s.solo_pause.is_some() {
         // The solo thread may finish before reaching event j.
-        let deadline = std::time::Instant::now() + std::time::Duration::from_secs(20);
+        let deadline = std::time::Instant::now() + std::time::Duration::from_secs(6);
         loop {
             let (paused, _) = with_ctl(|c| (c.solo_paused, c.solo_resume));
             if paused || solo.is_finished() {
@@ -360,7 +367,7 @@ fn run_scenario(s: &Scenario, salt: u64) -> Result<Outcome, Fail> {
     }
 
     // The solo thread must complete on its own while the writer is frozen.
-    let got = rx.recv_timeout(std::time::Duration::from_secs(20));
+    let got = rx.recv_timeout(std::time::Duration::from_secs(6));
     // Now release everything.
     with_ctl(|c| {
         c.release = true;
@@ -375,7 +382,7 @@ fn run_scenario(s: &Scenario, salt: u64) -> Result<Outcome, Fail> {
             if let Some(h) = w2 {
                 let _ = h.join();
             }
-            return Err(Fail { sig: "watchdog".into(), what: "solo thread did not complete within 20 s while the writer was frozen (no instrumented blocking lock was requested)".into(), inconclusive: true });
+            return Err(Fail { sig: "watchdog".into(), what: "solo thread did not complete within 6 s while the writer was frozen (no instrumented blocking lock was requested)".into(), inconclusive: true });
         }
     };
     let _ = solo.join();
@@ -504,13 +511,13 @@ fn run_static_scenario(freeze_at: usize, blocking: bool, dir: &std::path::Path, 
         let log = SOLO_LOG.with(|l| l.borrow().clone());
         let _ = tx.send((r.map_err(|_| crate::ctx::take_last_panic()), log));
     });
-    let got = rx.recv_timeout(std::time::Duration::from_secs(20));
+    let got = rx.recv_timeout(std::time::Duration::from_secs(6));
     with_ctl(|c| c.release = true);
     CV.notify_all();
     let _ = w.join();
     let (r, log) = match got {
         Ok(x) => x,
-        Err(_) => return Err(Fail { sig: "watchdog".into(), what: "get_base_time_unlocked did not complete within 20 s while the writer was frozen".into(), inconclusive: true }),
+        Err(_) => return Err(Fail { sig: "watchdog".into(), what: "get_base_time_unlocked did not complete within 6 s while the writer was frozen".into(), inconclusive: true }),
     };
     let _ = solo.join();
     let v = |sig: &str, what: String| Fail { sig: sig.to_string(), what, inconclusive: false };
@@ -577,7 +584,14 @@ pub fn run(ctx: &mut Ctx) {
             ctx.begin_case(idx, || scenario_json(idx, s));
             let res = run_scenario(s, salt).and_then(|o| judge(s, &o, salt).map(|_| o));
             match res {
-                Err(f) if f.inconclusive => ctx.inconclusive(format!("{} ({})", f.what, scenario_json(idx, s).render())),
+                Err(f) if f.inconclusive => {
+                    ctx.inconclusive(format!("{} ({})", f.what, scenario_json(idx, s).render()));
+                    if ctx.inconclusive.len() >= 3 {
+                        // do not burn minutes on watchdogs: the run is inconclusive anyway
+                        verif_sync::set_callback(None);
+                        return;
+                    }
+                }
                 Err(f) => ctx.violate(&["C18"], &f.sig, f.what, scenario_json(idx, s)),
                 Ok(o) => {
                     let steps = o.solo_events.iter().filter(|e| e.after && matches!(e.op, Op::Load | Op::Store)).count() as u64;
